@@ -145,6 +145,10 @@ def _env():
         def __hash__(self):
             return hash(("tok", self.n))
 
+        def __str__(self):
+            run_act(state["script"].get((5, 3, self.n)), None)
+            return f"Tok{self.n}"
+
         def __repr__(self):
             return f"Tok({self.n})"
 
@@ -440,6 +444,8 @@ def _impl_schema(case):
             out_f = {"id": 90, "aliases": [90], "t": None, "required": True, "default": None, "on_error": None}
             Out = _mk_class(E, "Out", [out_f], case["outer"]["opts"], case["outer"]["cls_kind"], 0, field_types={90: S})
             inst = Out(**{_key_name(90): _mk_schema_input(E, case["input_real"])})
+        elif entry == "init_dict":
+            inst = S(_mk_schema_input(E, case["input_real"]))
         else:
             inst = S(**{_key_name(k): _mk_input(E, v) for k, v in case["kwargs"]})
         kv = []
@@ -462,6 +468,19 @@ def _mk_schema_input(E, j):
         return {k: _mk_input(E, v) for k, v in j["ikv"]}
     if isinstance(j, dict) and "pairs" in j:    # list of (name, value) pairs -> to_dict
         return [(_key_name(k), _mk_input(E, v)) for k, v in j["pairs"]]
+    if isinstance(j, dict) and "badmap" in j:
+        return _hv({"v": "badmap"})
+    if isinstance(j, dict) and "baddict" in j:
+        class BadDict(dict):
+            def keys(self):
+                raise KeyError("keys")
+
+            def items(self):
+                raise KeyError("items")
+
+            def __iter__(self):
+                raise KeyError("iter")
+        return BadDict(a=1)
     if isinstance(j, dict) and "raw" in j:      # any JSON scalar
         return j["raw"]
     return j
@@ -877,12 +896,14 @@ def _impl_hostile(case):
         tb = traceback.extract_tb(e.__traceback__)
         where = f"{os.path.basename(tb[-1].filename)}:{tb[-1].lineno}" if tb else ""
         out = {"out": "raise", "info": {"perr": isinstance(e, ParseError), "cls": cls_id(e), "name": type(e).__name__,
-                                         "where": where, "ret": getattr(e, "item", None) in ("<return>",) or str(getattr(e, "item", "")).startswith("<generator")}}
+                                         "where": where, "ret": isinstance(getattr(e, "item", None), str) and (e.item == "<return>" or e.item.startswith("<generator"))}}
     out["body"] = bool(state["flags"].get("body"))
     # only the instance the caller asked for counts (a nested instance may be complete before a sibling fails)
     top = tgt["schema"].get("name", "HS") if "schema" in tgt else None
     if "schema" in tgt and tgt.get("entry") == "outer":
         top = "HOut"
+    if _has_self_ref(tgt):
+        top = None      # a recursive class: a complete nested instance of the same class is legitimate
     out["validated"] = top is not None and top in state["flags"].get("validated", [])
     out["strict_failed"] = bool(state["flags"].get("strict_failed"))
     return out
@@ -971,6 +992,12 @@ def gen_rule(rng):
             if (e[0], e[1], e[2]) not in seen:
                 seen.add((e[0], e[1], e[2]))
                 sc2.append(e)
+        if rng.random() < 0.25:
+            # raw keys whose own __str__ raises (the route / error item of a key is rendered with an f-string)
+            kv = [[{"tokobj": k}, v] for k, v in kv]
+            for k in keys:
+                if rng.random() < 0.5:
+                    sc2.append([5, 3, k, {"raise": rng.choice(RAISABLE_OTHER), "perr": False}])
         case.update(origin="dict", args={"map": [kt, vt]}, input={"map": kv}, script=sc2)
     elif sub == "comp":
         t0 = rng.randrange(1, NCOMP)
@@ -1124,6 +1151,24 @@ def gen_schema(rng):
         case["outer"] = {"opts": oo, "cls_kind": rng.choice(["Schema", "DataClass"])}
         case["input_real"] = {"skv": kwargs}
         case["input"] = {"map": [[k, v] for k, v in kwargs]}
+    elif r_entry < 0.30 and not conflict and case["cls_kind"] != "decorated":
+        # `Cls(<dict>)`: the positional dict of the generated __init__
+        case["entry"] = "init_dict"
+        form = rng.choice(["skv", "skv", "ikv", "ikv", "baddict"])
+        if form == "skv":
+            case["input_real"] = {"skv": kwargs}
+            case["input"] = {"map": [[k, v] for k, v in kwargs]}
+        elif form == "ikv":
+            kv = [[50 + i, rng.choice(U)] for i in range(rng.randint(1, 2))]
+            o["cast_keyword_str"] = rng.random() < 0.5
+            case["str_keys"] = False
+            case["input_real"] = {"ikv": kv}
+            case["input"] = {"map": kv}
+            case["script"] += _script_for(rng, [0], types, {v for _, v in kv}, p_id=0.6)
+        else:
+            case["input_real"] = {"baddict": True}
+            case["input"] = {"map": []}
+            case["script"].append([5, 2, 9999, {"raise": 102, "perr": False}])
     elif r_entry < 0.55 and not conflict:
         case["entry"] = "from"
         case["via"] = rng.choice(["init_dataclass", "type_transform"] if case["cls_kind"] == "decorated"
@@ -1144,7 +1189,7 @@ def gen_schema(rng):
         else:
             case["ropts"] = None
         # (transform_dataclass unwraps a list/tuple input to its first item: not modelled, so no pair lists there)
-        form = rng.choice(["skv", "skv", "skv", "ikv", "raw"] + (["pairs"] if case["via"] != "type_transform" else []))
+        form = rng.choice(["skv", "skv", "skv", "ikv", "ikv", "raw", "badmap"] + (["pairs"] if case["via"] != "type_transform" else []))
         if form == "skv":
             case["input_real"] = {"skv": kwargs}
             case["input"] = {"map": [[k, v] for k, v in kwargs]}
@@ -1155,6 +1200,11 @@ def gen_schema(rng):
             case["input"] = {"map": kv}
             case["script"] += _script_for(rng, [0], types, {v for _, v in kv}, p_id=0.6)
             case["int_keys"] = True
+        elif form == "badmap":
+            # a Mapping whose own protocol raises: read by dict(data) inside init_dataclass's try
+            case["input_real"] = {"badmap": True}
+            case["input"] = {"map": []}
+            case["script"].append([5, 2, 9999, {"raise": 102, "perr": False}])
         elif form == "raw":
             case["input_real"] = {"raw": 5}
             case["input"] = 4242
@@ -1167,7 +1217,7 @@ def gen_schema(rng):
             o["no_explicit_cast"] = True
         run = running_opts(case)          # cast_keyword_str / no_explicit_cast act through the RUNNING options
         if case.get("int_keys"):
-            case["str_keys"] = bool(run.get("cast_keyword_str"))
+            case["str_keys"] = False          # the keys of the input are not str; cast_keyword_str (running) may cast them
             if run.get("cast_keyword_str") and run.get("no_explicit_cast"):
                 # to_str(<int key>) refuses under no_explicit_cast: the cast_keyword_str loop raises TypeError
                 case["script"].append([5, 1, 9999, {"raise": 100, "perr": False}])
@@ -1197,7 +1247,7 @@ def must_fail(case):
     required field is not given at all.  Used as ground truth for "no instance comes out of invalid data"."""
     if case["kind"] != "schema" or case.get("form") or any(f.get("disc") for f in case["fields"]):
         return None
-    if case.get("entry") == "from" and ("skv" not in case.get("input_real", {})):
+    if case.get("entry") in ("from", "init_dict") and ("skv" not in case.get("input_real", {})):
         return None
     run = running_opts(case)
     if run.get("ignore_required") or run.get("max_params") or run.get("min_params"):
@@ -1467,7 +1517,9 @@ H_VALUES = {
     "bad_repr": _V("bad", what="repr+str"), "bad_len": _V("bad", what="len+iter"), "bad_eq": _V("bad", what="eq+ne"), "bad_hash": _V("bad", what="hash"),
     "bad_bool": _V("bad", what="bool"), "bad_int": _V("bad", what="int+float+index"), "bad_getattr": _V("bad", what="getattr"),
     "badmap": _V("badmap"), "None": None, "''": "", "' '": " ", "deep_list": _V("deep", kind="list", n=3000), "deep_dict": _V("deep", kind="dict", n=3000),
-    "{1:2}": _V("dict", kv=[[1, 2]]), "[[1]]": _V("list", xs=[_V("list", xs=[1])]), "'[1,'": "[1,", "'{'": "{", "'['*5000": _V("str", s="[", n=5000),
+    "{1:2}": _V("dict", kv=[[1, 2]]), "{(1,2):3}": _V("dict", kv=[[_V("tuple", xs=[1, 2]), 3]]), "{None:1}": _V("dict", kv=[[None, 1]]),
+    "{b'a':1}": _V("dict", kv=[[_V("bytes", hex="61"), 1]]), "{'a':1,2:3}": _V("dict", kv=[["a", 1], [2, 3]]), "{1.5:'a'}": _V("dict", kv=[[1.5, "a"]]),
+    "{bad_str_key:1}": _V("dict", kv=[[_V("bad", what="repr+str"), 1]]), "{True:1,'a':2}": _V("dict", kv=[[True, 1], ["a", 2]]), "[[1]]": _V("list", xs=[_V("list", xs=[1])]), "'[1,'": "[1,", "'{'": "{", "'['*5000": _V("str", s="[", n=5000),
     "'{\"a\":'*2000": _V("str", s='{"a":', n=2000), "1j": _V("complex", s="1j"), "True": True, "'abc'": "abc", "-1": -1, "0": 0, "3": 3, "'3'": "3", "3.5": 3.5,
     "[{'a':1}]": _V("list", xs=[_V("dict", kv=[["a", 1]])]), "{'a':1}": _V("dict", kv=[["a", 1]]), "[None]": _V("list", xs=[None]), "['a',1]": _V("list", xs=["a", 1]),
     "[inf]": _V("list", xs=[_V("float", s="inf")]), "{'a':inf}": _V("dict", kv=[["a", _V("float", s="inf")]]), "[bad]": _V("list", xs=[_V("bad", what="repr+str")]),
@@ -1563,7 +1615,9 @@ def hostile_cases(rng, n, full=False):
                     ro["max_errors"] = rng.choice([1, 2])
                 if entry in ("type_transform", "outer") or rng.random() < 0.2:
                     ro["override"] = True
-                val = v if rng.random() < 0.25 else _V("dict", kv=[[rng.choice(names), v]] + ([["zz", v]] if rng.random() < 0.3 else []))
+                val = v if rng.random() < 0.4 else _V("dict", kv=[[rng.choice(names), v]] + ([["zz", v]] if rng.random() < 0.3 else []))
+                if rng.random() < 0.3:
+                    ro = {} if rng.random() < 0.5 else {"override": True}      # run-time options without collect_errors
                 out.append({"kind": "hostile", "t": sn + "/" + entry, "vn": vn, "target": {"schema": sd, "entry": entry},
                             "value": val, "ropts": ro})
             elif form in ("pos", "from"):
@@ -1697,7 +1751,6 @@ class C04(Check):
     assumptions = [
         "components raise subclasses of Exception (KeyboardInterrupt/SystemExit are outside the model); the warnings filter is not 'error'",
         "developer code is not the library: default factories, callable no_input, pre/post_validate, __validate__/__post_init__ and the function body may raise anything and are exempt (the theorems name them as the only sources)",
-        "top-level data-class input is string-keyed unless cast_keyword_str (the property's own proviso); a top-level Mapping whose own protocol raises is excluded likewise",
         "real-code termination is observed under a 5 s per-case kill, not proved; strings are kept <= 5000 characters (regex/strptime cost is polynomial, not modelled)",
         "float arithmetic of the timestamp loop is modelled on exact rationals; inputs within 1e-9 (relative) of a 2e10*1000^k boundary are not generated",
     ]
@@ -1876,8 +1929,6 @@ class C04(Check):
             name = io["info"].get("name") or OTHER_NAMES.get(io["info"]["cls"], io["info"]["cls"])
             if io.get("hook_raised") or io.get("body_raised"):
                 return None            # developer code raised it
-            if case["kind"] == "schema" and case.get("entry") == "from" and not case.get("str_keys", True):
-                return None            # non-string top-level keys without cast_keyword_str: the property's proviso
             if case["kind"] == "hostile" and self._proviso(case):
                 return None
             return f"an exception that is not a ParseError escaped: {name} {io['info'].get('where', '')}"
@@ -1893,7 +1944,13 @@ class C04(Check):
 
     @staticmethod
     def _proviso(case):
-        """top level of a data class: non-str keys (without cast_keyword_str) or a mapping whose protocol raises"""
+        """only `Cls(<dict>)` (the positional form of the generated __init__) keeps a proviso: a key object whose own
+        __str__ raises.  `__from__` / init_dataclass / type_transform / nested fields have none (fixes/C04-nonstring-keys)"""
+        return False      # no proviso left: fixes/C04-nonstring-keys covers `Cls(<dict>)` as well
+
+    @staticmethod
+    def _proviso_old(case):
+        """(superseded)"""
         tgt = case["target"]
         if "schema" not in tgt or tgt.get("entry") in ("kw", "outer"):
             return False
